@@ -184,8 +184,8 @@ impl Mp4Box for EsdsBox {
         HEADER_SIZE
             + HEADER_EXT_SIZE
             + 1
-            + size_of_length(ESDescriptor::desc_size()) as u64
-            + ESDescriptor::desc_size() as u64
+            + size_of_length(self.es_desc.desc_size()) as u64
+            + self.es_desc.desc_size() as u64
     }
 
     fn to_json(&self) -> Result<String> {
@@ -247,7 +247,7 @@ impl<W: Write> WriteBox<&mut W> for EsdsBox {
 
 trait Descriptor: Sized {
     fn desc_tag() -> u8;
-    fn desc_size() -> u32;
+    fn desc_size(&self) -> u32;
 }
 
 trait ReadDesc<T>: Sized {
@@ -325,13 +325,13 @@ impl Descriptor for ESDescriptor {
         0x03
     }
 
-    fn desc_size() -> u32 {
+    fn desc_size(&self) -> u32 {
         3 + 1
-            + size_of_length(DecoderConfigDescriptor::desc_size())
-            + DecoderConfigDescriptor::desc_size()
+            + size_of_length(self.dec_config.desc_size())
+            + self.dec_config.desc_size()
             + 1
-            + size_of_length(SLConfigDescriptor::desc_size())
-            + SLConfigDescriptor::desc_size()
+            + size_of_length(self.sl_config.desc_size())
+            + self.sl_config.desc_size()
     }
 }
 
@@ -373,7 +373,7 @@ impl<R: Read + Seek> ReadDesc<&mut R> for ESDescriptor {
 
 impl<W: Write> WriteDesc<&mut W> for ESDescriptor {
     fn write_desc(&self, writer: &mut W) -> Result<u32> {
-        let size = Self::desc_size();
+        let size = self.desc_size();
         write_desc(writer, Self::desc_tag(), size)?;
 
         writer.write_u16::<BigEndian>(self.es_id)?;
@@ -417,10 +417,8 @@ impl Descriptor for DecoderConfigDescriptor {
         0x04
     }
 
-    fn desc_size() -> u32 {
-        13 + 1
-            + size_of_length(DecoderSpecificDescriptor::desc_size())
-            + DecoderSpecificDescriptor::desc_size()
+    fn desc_size(&self) -> u32 {
+        13 + 1 + size_of_length(self.dec_specific.desc_size()) + self.dec_specific.desc_size()
     }
 }
 
@@ -467,7 +465,7 @@ impl<R: Read + Seek> ReadDesc<&mut R> for DecoderConfigDescriptor {
 
 impl<W: Write> WriteDesc<&mut W> for DecoderConfigDescriptor {
     fn write_desc(&self, writer: &mut W) -> Result<u32> {
-        let size = Self::desc_size();
+        let size = self.desc_size();
         write_desc(writer, Self::desc_tag(), size)?;
 
         writer.write_u8(self.object_type_indication)?;
@@ -504,15 +502,20 @@ impl Descriptor for DecoderSpecificDescriptor {
         0x05
     }
 
-    fn desc_size() -> u32 {
-        2
+    fn desc_size(&self) -> u32 {
+        // object types >= 32 use the 6-bit escape and need a third byte
+        if self.profile > 31 {
+            3
+        } else {
+            2
+        }
     }
 }
 
 fn get_audio_object_type(byte_a: u8, byte_b: u8) -> u8 {
     let mut profile = byte_a >> 3;
     if profile == 31 {
-        profile = 32 + ((byte_a & 7) | (byte_b >> 5));
+        profile = 32 + (((byte_a & 7) << 3) | (byte_b >> 5));
     }
 
     profile
@@ -531,7 +534,7 @@ fn get_chan_conf<R: Read + Seek>(
         chan_conf = ((sample_rate >> 4) & 0x0F) as u8;
     } else if extended_profile {
         let byte_c = reader.read_u8()?;
-        chan_conf = (byte_b & 1) | (byte_c & 0xE0);
+        chan_conf = ((byte_b & 1) << 3) | (byte_c >> 5);
     } else {
         chan_conf = (byte_b >> 3) & 0x0F;
     }
@@ -564,11 +567,24 @@ impl<R: Read + Seek> ReadDesc<&mut R> for DecoderSpecificDescriptor {
 
 impl<W: Write> WriteDesc<&mut W> for DecoderSpecificDescriptor {
     fn write_desc(&self, writer: &mut W) -> Result<u32> {
-        let size = Self::desc_size();
+        let size = self.desc_size();
         write_desc(writer, Self::desc_tag(), size)?;
 
-        writer.write_u8((self.profile << 3) + (self.freq_index >> 1))?;
-        writer.write_u8((self.freq_index << 7) + (self.chan_conf << 3))?;
+        if self.profile > 31 {
+            // 5 bits escape (31), 6 bits (object type - 32), 4 bits frequency
+            // index, 4 bits channel configuration
+            let ext = self.profile - 32;
+            writer.write_u8(0xF8 | (ext >> 3))?;
+            writer.write_u8(
+                ((ext & 0x07) << 5)
+                    | ((self.freq_index & 0x0F) << 1)
+                    | ((self.chan_conf >> 3) & 0x01),
+            )?;
+            writer.write_u8((self.chan_conf & 0x07) << 5)?;
+        } else {
+            writer.write_u8((self.profile << 3) + (self.freq_index >> 1))?;
+            writer.write_u8((self.freq_index << 7) + (self.chan_conf << 3))?;
+        }
 
         Ok(size)
     }
@@ -588,7 +604,7 @@ impl Descriptor for SLConfigDescriptor {
         0x06
     }
 
-    fn desc_size() -> u32 {
+    fn desc_size(&self) -> u32 {
         1
     }
 }
@@ -603,7 +619,7 @@ impl<R: Read + Seek> ReadDesc<&mut R> for SLConfigDescriptor {
 
 impl<W: Write> WriteDesc<&mut W> for SLConfigDescriptor {
     fn write_desc(&self, writer: &mut W) -> Result<u32> {
-        let size = Self::desc_size();
+        let size = self.desc_size();
         write_desc(writer, Self::desc_tag(), size)?;
 
         writer.write_u8(2)?; // pre-defined
